@@ -91,7 +91,10 @@ Replace(node, cfg) ==
                   ELSE IF cfg.replace_at.kind # "override" /\ UsesMode(cfg) THEN DeprecatedAt(node.name, a) ELSE a
       nm == IF cfg.replace_el.kind # "unset" /\ node.name \in DOMAIN cfg.replace_el.m THEN cfg.replace_el.m[node.name]
             ELSE IF cfg.replace_el.kind # "override" /\ UsesMode(cfg) THEN DeprecatedEl(node.name) ELSE node.name
-  IN [node EXCEPT !.name = nm, !.attrs = {[n |-> newAt(a.n), v |-> a.v, ns |-> a.ns] : a \in node.attrs}]
+      \* an attribute is not renamed onto a name the element already carries (an element has one attribute of a name):
+      \* the deprecated spelling then simply goes
+      clash(a) == newAt(a.n) # a.n /\ \E b \in node.attrs : b.n = newAt(a.n)
+  IN [node EXCEPT !.name = nm, !.attrs = {[n |-> newAt(a.n), v |-> a.v, ns |-> a.ns] : a \in {x \in node.attrs : ~clash(x)}}]
 
 \* ---- what happens to an element
 Action(n, depth, cfg) ==
